@@ -367,19 +367,19 @@ where
                 }
             }
             // argument / to_polar / abs / signum style methods at a real part of exactly +0 and -0
-            for z0 in [0.0f64, -0.0] {
+            for z0 in [0.0f64, -0.0, f64::NAN] {
                 let mut s0 = sx.clone();
                 s0[0] = z0;
                 let x0: T = build_all(&shape, &s0);
                 let x0f: T::F = f_of::<T>(z0);
-                acc.observe(&format!("argument-at-{}0|{}", if z0.is_sign_negative() { "-" } else { "+" }, tname), true);
+                acc.observe(&format!("argument-at-{}|{}", if z0.is_nan() { "NaN" } else if z0.is_sign_negative() { "-0" } else { "+0" }, tname), true);
                 let (ga, fa) = (p(&ComplexField::argument(x0.clone())), fv(ComplexField::argument(x0f)));
                 let (gp, fp) = (p(&ComplexField::to_polar(x0.clone()).1), fv(ComplexField::to_polar(x0f).1));
                 // ComplexField::signum (used by nalgebra's eigen solvers for their shift): the float's value
                 let (gs, fs) = (p(&ComplexField::signum(x0.clone())), fv(ComplexField::signum(x0f)));
                 // (at -0.0 the float says -1 by its sign bit while the dual types say +1 through `self >= 0`:
                 // a convention at the discontinuity, not judged; what matters to callers is a unit sign)
-                let sign_ok = if z0.is_sign_negative() { gs[0].abs() == 1.0 } else { gs[0] == fs };
+                let sign_ok = if z0.is_nan() { true } else if z0.is_sign_negative() { gs[0].abs() == 1.0 } else { gs[0] == fs };
                 if !sign_ok {
                     acc.violate(format!("signum-at-zero:{}", tname), format!("ComplexField::signum on {} at real part {:?}: real part {:e}, the float gives {:e}", tname, z0, gs[0], fs), json!({"type": tname, "real_part": format!("{:?}", z0)}));
                 }
